@@ -252,12 +252,14 @@ structure GridOK (mn mx : α) (n : Nat) (bounds psd : List α) : Prop where
   psd_len : psd.length = n
   psd_nonneg : ∀ x ∈ psd, 0 ≤ x
 
-/-- one recorded row pair: the all-zero first record written by `enableRecording`, or a consistent
-grid with a POSITIVE lower end (the code counts non-zero boundaries), each row padded with zeros -/
+/-- one recorded row pair: an all-zero boundary row (the first record written by `enableRecording`), or
+a consistent grid — lower end `0 ≤ mn`, ZERO INCLUDED since repair a549be2: the record length is the
+position of the last non-zero boundary, and the last boundary `mx > mn ≥ 0` is never zero — each row
+padded with zeros -/
 def RowOK (rb rp : List α) : Prop :=
-  nonzeroCount rb = 0 ∨
+  recordedCount rb = 0 ∨
   ∃ (mn mx : α) (n : Nat) (b p : List α) (k1 k2 : Nat),
-    0 < mn ∧ GridOK mn mx n b p ∧ rb = b ++ zeros k1 ∧ rp = p ++ zeros k2
+    GridOK mn mx n b p ∧ rb = b ++ zeros k1 ∧ rp = p ++ zeros k2
 
 /-- recorded arrays: as many boundary rows as population rows as times, every row pair `RowOK` -/
 def RecsOK (B P : List (List α)) (T : List α) : Prop :=
@@ -985,18 +987,66 @@ theorem nonzeroCount_pos_all (b : List α) (h : ∀ x ∈ b, 0 < x) : nonzeroCou
 theorem zeros_append (a b : Nat) : (zeros a : List α) ++ zeros b = zeros (a + b) := by
   simp [zeros, List.replicate_append_replicate]
 
+theorem zeros_succ (k : Nat) : (zeros (k + 1) : List α) = 0 :: zeros k := by
+  simp [zeros, List.replicate_succ]
+
+/-! the record length of the repaired `_grabPSDfromIndex`: position of the last non-zero boundary + 1 -/
+
+theorem recordedCount_cons (x : α) (xs : List α) :
+    recordedCount (x :: xs) =
+      if recordedCount xs = 0 then (if x < 0 ∨ 0 < x then 1 else 0) else recordedCount xs + 1 := by
+  rw [recordedCount]
+  cases recordedCount xs with
+  | zero => simp
+  | succ k => simp
+
+theorem recordedCount_zeros (k : Nat) : recordedCount (zeros k : List α) = 0 := by
+  induction k with
+  | zero => rfl
+  | succ k ih => rw [zeros_succ, recordedCount_cons, ih]; simp
+
+/-- zero padding at the end does not change the record length -/
+theorem recordedCount_append_zeros (b : List α) (k : Nat) :
+    recordedCount (b ++ zeros k) = recordedCount b := by
+  induction b with
+  | nil => rw [List.nil_append, recordedCount_zeros]; rfl
+  | cons x xs ih => rw [List.cons_append, recordedCount_cons, recordedCount_cons, ih]
+
+/-- a row whose last entry is not zero is a record of its full length, whatever the other entries
+are (in particular a zero FIRST boundary is counted) -/
+theorem recordedCount_of_getLast_ne : ∀ (b : List α) (l : α), b.getLast? = some l → l ≠ 0 →
+    recordedCount b = b.length := by
+  intro b
+  induction b with
+  | nil => intro l h; simp at h
+  | cons x xs ih =>
+    intro l h hl
+    cases xs with
+    | nil =>
+      simp only [List.getLast?_singleton, Option.some.injEq] at h
+      subst h
+      rw [recordedCount_cons]
+      simp only [recordedCount, if_true, List.length_singleton]
+      rw [if_pos (lt_or_gt_of_ne hl)]
+    | cons y ys =>
+      rw [List.getLast?_cons_cons] at h
+      have := ih l h hl
+      rw [recordedCount_cons, this]
+      simp
+
 theorem rowOK_pad (rb rp : List α) (w1 w2 : Nat) (h : RowOK rb rp) : RowOK (padRow w1 rb) (padRow w2 rp) := by
-  rcases h with h | ⟨mn, mx, n, b, p, k1, k2, hmn, hg, rfl, rfl⟩
-  · left; unfold padRow; rw [nonzeroCount_append, h, nonzeroCount_zeros]
+  rcases h with h | ⟨mn, mx, n, b, p, k1, k2, hg, rfl, rfl⟩
+  · left; unfold padRow; rw [recordedCount_append_zeros, h]
   · right
-    refine ⟨mn, mx, n, b, p, k1 + (w1 - (b ++ zeros k1).length), k2 + (w2 - (p ++ zeros k2).length), hmn, hg, ?_, ?_⟩ <;>
+    refine ⟨mn, mx, n, b, p, k1 + (w1 - (b ++ zeros k1).length), k2 + (w2 - (p ++ zeros k2).length), hg, ?_, ?_⟩ <;>
       (unfold padRow; rw [List.append_assoc, zeros_append])
 
-theorem rowOK_zeros (a b : Nat) : RowOK (zeros a : List α) (zeros b) := Or.inl (nonzeroCount_zeros a)
+theorem rowOK_zeros (a b : Nat) : RowOK (zeros a : List α) (zeros b) := Or.inl (recordedCount_zeros a)
 
-theorem rowOK_grid (mn mx : α) (n : Nat) (b p : List α) (w1 w2 : Nat) (hmn : 0 < mn)
+/-- every consistent grid — a lower end of exactly 0 included — gives a well-formed record row -/
+theorem rowOK_grid (mn mx : α) (n : Nat) (b p : List α) (w1 w2 : Nat)
     (hg : GridOK mn mx n b p) : RowOK (padRow w1 b) (padRow w2 p) :=
-  Or.inr ⟨mn, mx, n, b, p, _, _, hmn, hg, rfl, rfl⟩
+  Or.inr ⟨mn, mx, n, b, p, _, _, hg, rfl, rfl⟩
 
 theorem recsOK_record (B P : List (List α)) (T : List α) (w1 w2 : Nat) (rb rp : List α) (t : α)
     (h : RecsOK B P T) (hrow : RowOK rb rp) :
@@ -1012,10 +1062,10 @@ theorem recsOK_record (B P : List (List α)) (T : List α) (w1 w2 : Nat) (rb rp 
   · simp only [List.zip_cons_cons, List.zip_nil_right, List.mem_singleton] at hq
     subst hq; exact hrow
 
-/-- **Inv is preserved by `record`** when the lower end of the grid is positive (the code counts
-non-zero boundaries to find the length of a record) -/
-theorem record_inv (s s' : State α) (t : α) (h : Inv s) (hpos : s.recording = true → 0 < s.min)
-    (hs : record s t = some s') : Inv s' := by
+/-- **Inv is preserved by `record`** — no precondition: the grid may start at R = 0 (since repair
+a549be2 the record length is the position of the last non-zero boundary, so a zero first boundary
+is kept) -/
+theorem record_inv (s s' : State α) (t : α) (h : Inv s) (hs : record s t = some s') : Inv s' := by
   obtain ⟨hg, hsz, ho1, ho2, ho3, hbk, hr, hsv⟩ := h
   unfold record at hs
   by_cases hrec : s.recording = true
@@ -1026,7 +1076,7 @@ theorem record_inv (s s' : State α) (t : α) (h : Inv s) (hpos : s.recording = 
     · simp at hs
     · have := Option.some.inj hs; subst this
       exact ⟨hg, hsz, ho1, ho2, ho3, hbk,
-        recsOK_record _ _ _ _ _ _ _ _ hr (rowOK_grid _ _ _ _ _ _ _ (hpos hrec) hg), hsv⟩
+        recsOK_record _ _ _ _ _ _ _ _ hr (rowOK_grid _ _ _ _ _ _ _ hg), hsv⟩
   · rw [if_neg hrec] at hs
     have := Option.some.inj hs; subst this; exact ⟨hg, hsz, ho1, ho2, ho3, hbk, hr, hsv⟩
 
@@ -1045,11 +1095,11 @@ theorem record_fields (s s' : State α) (t : α) (hs : record s t = some s') :
     have := Option.some.inj hs; subst this; rfl
 
 /-- **Inv is preserved by `UpdatePBMEuler`** for a distribution of the right length (any sign: entries
-below 1 are dropped) -/
-theorem update_inv (s s' : State α) (t : α) (N : List α) (h : Inv s) (hN : N.length = s.bins)
-    (hpos : s.recording = true → 0 < s.min) (hs : update s t N = some s') : Inv s' := by
+below 1 are dropped), recording or not, on any consistent grid (lower end 0 included) -/
+theorem update_inv_any (s s' : State α) (t : α) (N : List α) (h : Inv s) (hN : N.length = s.bins)
+    (hs : update s t N = some s') : Inv s' := by
   unfold update at hs
-  refine record_inv { s with psd := N.map (fun x => if x < 1 then 0 else x) } s' t ?_ hpos hs
+  refine record_inv { s with psd := N.map (fun x => if x < 1 then 0 else x) } s' t ?_ hs
   obtain ⟨⟨hn, hm0, hmlt, hbe, hl, hp⟩, hsz, ho1, ho2, ho3, hbk, hr, hsv⟩ := h
   refine ⟨⟨hn, hm0, hmlt, hbe, by rw [List.length_map]; exact hN, ?_⟩, hsz, ho1, ho2, ho3, hbk, hr, hsv⟩
   intro x hx
@@ -1058,6 +1108,13 @@ theorem update_inv (s s' : State α) (t : α) (N : List α) (h : Inv s) (hN : N.
   split
   · exact le_refl _
   · next hy => linarith [not_lt.mp hy]
+
+/-- `update_inv_any` in the form other modules call it.  The hypothesis `hpos` (positive lower end
+while recording) was needed while `_grabPSDfromIndex` counted non-zero boundaries; it is NOT used
+any more and is kept only so that existing callers keep compiling. -/
+theorem update_inv (s s' : State α) (t : α) (N : List α) (h : Inv s) (hN : N.length = s.bins)
+    (hpos : s.recording = true → 0 < s.min) (hs : update s t N = some s') : Inv s' :=
+  update_inv_any s s' t N h hN hs
 
 theorem enableRec_inv (s : State α) (h : Inv s) : Inv (enableRec s) := by
   obtain ⟨hg, hsz, ho1, ho2, ho3, hbk, hr, hsv⟩ := h
@@ -1187,30 +1244,137 @@ structure GrabOK (g : Grab α) (mn mx : α) (n : Nat) : Prop where
   minl : minList g.bounds = mn
   maxl : maxList g.bounds = mx
 
+/-! strictly increasing boundaries: extremes are the ends -/
+
+theorem pairwise_le_getLast : ∀ (b : List α) (l : α), b.Pairwise (· < ·) → b.getLast? = some l →
+    ∀ y ∈ b, y ≤ l := by
+  intro b
+  induction b with
+  | nil => intro l _ h; simp at h
+  | cons x xs ih =>
+    intro l hp hl y hy
+    cases xs with
+    | nil =>
+      simp only [List.getLast?_singleton, Option.some.injEq] at hl
+      simp only [List.mem_singleton] at hy
+      rw [hy, hl]
+    | cons z zs =>
+      rw [List.getLast?_cons_cons] at hl
+      rw [List.pairwise_cons] at hp
+      rcases List.mem_cons.mp hy with rfl | hy
+      · exact (hp.1 l (List.mem_of_getLast? hl)).le
+      · exact ih l hp.2 hl y hy
+
+theorem maxList_pairwise (b : List α) (l : α) (hp : b.Pairwise (· < ·)) (hl : b.getLast? = some l) :
+    maxList b = l := by
+  have hne : b ≠ [] := by intro h; rw [h] at hl; simp at hl
+  apply le_antisymm
+  · exact pairwise_le_getLast b l hp hl _ (maxList_mem b hne)
+  · exact le_maxList _ _ (List.mem_of_getLast? hl)
+
+theorem minList_pairwise (x : α) (xs : List α) (hp : (x :: xs).Pairwise (· < ·)) : minList (x :: xs) = x := by
+  unfold minList
+  obtain ⟨h1, h2, _⟩ := foldl_min_spec xs x
+  rcases List.mem_cons.mp h1 with h | h
+  · exact h
+  · exact absurd ((List.pairwise_cons.mp hp).1 _ h) (not_lt.mpr h2)
+
+theorem linspace_pairwise (mn mx : α) (n : Nat) (hn : 1 ≤ n) (h : mn < mx) :
+    (linspace mn mx n).Pairwise (· < ·) := by
+  rw [List.pairwise_iff_getElem]
+  intro i j hi hj hij
+  have hi' : i < n + 1 := by rw [linspace_length] at hi; exact hi
+  have hj' : j < n + 1 := by rw [linspace_length] at hj; exact hj
+  have e1 := linspace_getElem? mn mx n i hn (by omega)
+  have e2 := linspace_getElem? mn mx n j hn (by omega)
+  rw [List.getElem?_eq_getElem hi] at e1
+  rw [List.getElem?_eq_getElem hj] at e2
+  rw [Option.some.inj e1, Option.some.inj e2]
+  exact lin_lt mn mx n i j hn h hij
+
+/-- **a restored record is exactly what was recorded** (repaired `_grabPSDfromIndex`): for a row pair
+recorded from a grid with at least one class whose boundaries `b` are strictly increasing and start
+at a NON-NEGATIVE value — a first boundary of exactly 0 included — and its populations `p`, each
+padded with any number of zeros, `grab` returns exactly `b` and `p`: same boundaries, same
+populations, same class count, centres = midpoints, and the stated minimum / maximum are the first /
+last boundary.  (`s` only supplies the original grid for the all-zero row; it does not enter.) -/
+theorem grab_restores_record (s : State α) (b p : List α) (k1 k2 : Nat)
+    (hlen : 2 ≤ b.length) (hp : p.length + 1 = b.length) (hinc : b.Pairwise (· < ·))
+    (h0 : ∀ x, b.head? = some x → 0 ≤ x) :
+    grab s (b ++ zeros k1) (p ++ zeros k2) =
+        { bounds := b, psd := p, size := midpoints b, bins := p.length, mn := minList b, mx := maxList b } ∧
+      b.head? = some (minList b) ∧ b.getLast? = some (maxList b) := by
+  rcases hb : b with _ | ⟨x0, _ | ⟨x1, rest⟩⟩
+  · rw [hb] at hlen; simp at hlen
+  · rw [hb] at hlen; simp at hlen
+  · rw [← hb]
+    have hx0 : 0 ≤ x0 := h0 x0 (by rw [hb]; rfl)
+    obtain ⟨l, hl⟩ : ∃ l, b.getLast? = some l := by
+      rw [hb, List.getLast?_cons_cons]
+      exact ⟨_, List.getLast?_eq_some_getLast (List.cons_ne_nil x1 rest)⟩
+    have hlpos : 0 < l := by
+      have hmem : l ∈ x1 :: rest := by
+        rw [hb, List.getLast?_cons_cons] at hl; exact List.mem_of_getLast? hl
+      have := (List.pairwise_cons.mp (hb ▸ hinc)).1 l hmem
+      linarith
+    have hcnt : recordedCount (b ++ zeros k1) = b.length := by
+      rw [recordedCount_append_zeros]
+      exact recordedCount_of_getLast_ne b l hl (ne_of_gt hlpos)
+    have hne : b.length ≠ 0 := by omega
+    have ht1 : (b ++ zeros k1).take b.length = b := List.take_left' rfl
+    have ht2 : (p ++ zeros k2).take (b.length - 1) = p := List.take_left' (by omega)
+    refine ⟨?_, ?_, ?_⟩
+    · simp only [grab, grabWith, hcnt, hne, if_false, ht1, ht2]
+    · rw [hb, minList_pairwise x0 (x1 :: rest) (hb ▸ hinc)]; rfl
+    · rw [hl, maxList_pairwise b l hinc hl]
+
+/-- the number of non-zero entries (the record length BEFORE repair a549be2) of a row recorded from
+a grid that starts at exactly 0 is one short: the last class of the record is lost by `grabOld` -/
+theorem nonzeroCount_zero_start (xs : List α) (k : Nat) (h : ∀ x ∈ xs, 0 < x) :
+    nonzeroCount ((0 : α) :: xs ++ zeros k) = xs.length := by
+  have : (0 : α) :: xs ++ zeros k = [0] ++ (xs ++ zeros k) := by simp
+  rw [this, nonzeroCount_append, nonzeroCount_append, nonzeroCount_zeros, nonzeroCount_pos_all xs h]
+  simp [nonzeroCount]
+
 /-- a consistent record is read back as the consistent grid that was recorded (or, for the all-zero
 first record, as the original empty grid) -/
 theorem grab_ok (s : State α) (rb rp : List α) (hrow : RowOK rb rp)
     (ho1 : 1 ≤ s.origBins) (ho2 : 0 ≤ s.origMin) (ho3 : s.origMin < s.origMax) :
     ∃ mn mx n, GrabOK (grab s rb rp) mn mx n := by
-  rcases hrow with h | ⟨mn, mx, n, b, p, k1, k2, hmn, hg, rfl, rfl⟩
+  rcases hrow with h | ⟨mn, mx, n, b, p, k1, k2, hg, rfl, rfl⟩
   · refine ⟨s.origMin, s.origMax, s.origBins, ?_⟩
-    simp only [grab, h, if_true]
+    simp only [grab, grabWith, h, if_true]
     exact ⟨gridOK_fresh _ _ _ ho1 ho2 ho3, rfl, rfl, minList_linspace _ _ _ ho1 ho3, maxList_linspace _ _ _ ho1 ho3,
       minList_linspace _ _ _ ho1 ho3, maxList_linspace _ _ _ ho1 ho3⟩
   · have hb := hg.bounds_eq
     have hbl : b.length = n + 1 := by rw [hb, linspace_length]
-    have hpos : ∀ x ∈ b, 0 < x := by
-      rw [hb]; intro x hx
-      exact lt_of_lt_of_le hmn (linspace_mem_ge _ _ _ hg.bins_pos hg.lt x hx)
-    have hnz : nonzeroCount (b ++ zeros k1) = n + 1 := by
-      rw [nonzeroCount_append, nonzeroCount_zeros, nonzeroCount_pos_all b hpos, hbl]
-    have ht1 : (b ++ zeros k1).take (n + 1) = b := List.take_left' hbl
-    have ht2 : (p ++ zeros k2).take (n + 1 - 1) = p := List.take_left' (by rw [hg.psd_len]; omega)
+    have hn := hg.bins_pos
+    have hr := (grab_restores_record s b p k1 k2 (by omega) (by rw [hg.psd_len, hbl])
+      (by rw [hb]; exact linspace_pairwise _ _ _ hg.bins_pos hg.lt)
+      (by intro x hx; rw [hb, linspace_head?] at hx; rw [← Option.some.inj hx]; exact hg.min_nonneg)).1
     refine ⟨mn, mx, n, ?_⟩
-    simp only [grab, hnz, Nat.succ_ne_zero, if_false, ht1, ht2]
+    rw [hr]
     have hmin : minList b = mn := by rw [hb]; exact minList_linspace _ _ _ hg.bins_pos hg.lt
     have hmax : maxList b = mx := by rw [hb]; exact maxList_linspace _ _ _ hg.bins_pos hg.lt
     exact ⟨hg, rfl, hg.psd_len, hmin, hmax, hmin, hmax⟩
+
+/-- **restoring a consistent grid from its record gives back that grid**, lower end 0 included:
+boundaries, populations, class count, minimum and maximum -/
+theorem grab_restores_grid (s : State α) (mn mx : α) (n : Nat) (b p : List α) (w1 w2 : Nat)
+    (hg : GridOK mn mx n b p) :
+    grab s (padRow w1 b) (padRow w2 p) =
+      { bounds := b, psd := p, size := midpoints b, bins := n, mn := mn, mx := mx } := by
+  have hb := hg.bounds_eq
+  have hbl : b.length = n + 1 := by rw [hb, linspace_length]
+  have hn := hg.bins_pos
+  have hr := (grab_restores_record s b p (w1 - b.length) (w2 - p.length) (by omega) (by rw [hg.psd_len, hbl])
+    (by rw [hb]; exact linspace_pairwise _ _ _ hg.bins_pos hg.lt)
+    (by intro x hx; rw [hb, linspace_head?] at hx; rw [← Option.some.inj hx]; exact hg.min_nonneg)).1
+  unfold padRow
+  rw [hr, hg.psd_len]
+  have hmin : minList b = mn := by rw [hb]; exact minList_linspace _ _ _ hg.bins_pos hg.lt
+  have hmax : maxList b = mx := by rw [hb]; exact maxList_linspace _ _ _ hg.bins_pos hg.lt
+  rw [hmin, hmax]
 
 theorem applyGrab_inv (s : State α) (g : Grab α) (mn mx : α) (n : Nat) (h : Inv s) (hg : GrabOK g mn mx n) :
     Inv (applyGrab s g) := by
@@ -1415,6 +1579,52 @@ theorem setRecorded_inv (s s' : State α) (t : α) (h : Inv s) (hs : setRecorded
     · simp at hs
   · have := Option.some.inj hs; subst this; exact h
 
+/-- **record, then restore at (or after) that time: the grid and the distribution come back exactly** —
+boundaries, populations, centres, class count, stated minimum and maximum — on every consistent
+grid, a lower end of exactly 0 included, whatever was recorded before (`t0` is the first recorded
+time; a request at or before it returns the first record instead). -/
+theorem record_then_restore (s s1 : State α) (t t' : α) (h : Inv s) (hrec : s.recording = true)
+    (hs : record s t = some s1) (ht : t ≤ t') (h0 : ∀ t0, s.recTime.head? = some t0 → t0 < t') :
+    ∃ s2, setRecorded s1 t' = some s2 ∧ s2.bounds = s.bounds ∧ s2.psd = s.psd ∧ s2.size = s.size ∧
+      s2.bins = s.bins ∧ s2.min = s.min ∧ s2.max = s.max := by
+  unfold record at hs
+  rw [if_pos hrec] at hs
+  generalize (if s.adaptive = true then s.maxBins else s.bins) = mb at hs
+  unfold recordWith at hs
+  split at hs
+  · simp at hs
+  · have hs1 := Option.some.inj hs
+    have e_rec : s1.recording = true := by rw [← hs1]; exact hrec
+    have e_T : s1.recTime = s.recTime ++ [t] := by rw [← hs1]
+    have e_B : s1.recBins = s.recBins.map (padRow (mb + 1)) ++ [padRow (mb + 1) s.bounds] := by rw [← hs1]
+    have e_P : s1.recPsd = s.recPsd.map (padRow mb) ++ [padRow mb s.psd] := by rw [← hs1]
+    have hrow := grab_restores_grid s1 _ _ _ _ _ (mb + 1) mb h.grid
+    have hlast : s1.recTime.getLast? = some t := by rw [e_T]; simp
+    have hBl : s1.recBins.getLast? = some (padRow (mb + 1) s.bounds) := by rw [e_B]; simp
+    have hPl : s1.recPsd.getLast? = some (padRow mb s.psd) := by rw [e_P]; simp
+    refine ⟨applyGrab s1 (grab s1 (padRow (mb + 1) s.bounds) (padRow mb s.psd)), ?_, ?_⟩
+    · unfold setRecorded
+      rw [if_pos e_rec]
+      cases hT : s.recTime with
+      | nil =>
+        have hB0 : s.recBins = [] := by
+          have := h.recs.2.1; rw [hT] at this; exact List.length_eq_zero_iff.mp this
+        have hP0 : s.recPsd = [] := by
+          have := h.recs.1; rw [hB0] at this; exact List.length_eq_zero_iff.mp this.symm
+        have hhead : s1.recTime.head? = some t := by rw [e_T, hT]; rfl
+        have hB1 : s1.recBins[0]? = some (padRow (mb + 1) s.bounds) := by rw [e_B, hB0]; rfl
+        have hP1 : s1.recPsd[0]? = some (padRow mb s.psd) := by rw [e_P, hP0]; rfl
+        simp only [hhead, hlast, hB1, hP1, hBl, hPl]
+        split <;> rfl
+      | cons t0 T =>
+        have hhead : s1.recTime.head? = some t0 := by rw [e_T, hT]; rfl
+        have hlt : ¬ t' ≤ t0 := not_le.mpr (h0 t0 (by rw [hT]; rfl))
+        simp only [hhead, hlast, hBl, hPl]
+        rw [if_neg hlt, if_pos ht]
+    · rw [hrow]
+      simp only [applyGrab]
+      exact ⟨trivial, trivial, h.size_eq.symm, trivial, trivial, trivial⟩
+
 /-! ### operation sequences -/
 
 /-- stated precondition of each operation (what the caller has to guarantee) -/
@@ -1424,14 +1634,14 @@ def Pre (s : State α) : Op α → Prop
   | .change cMin cMax b? r =>
       (∀ b, b? = some b → 1 ≤ b) ∧ (r = false → 0 ≤ cMin) ∧ (r = false → cMin < amax2 (10 * cMin) cMax)
   | .adjust _ => 1 ≤ s.minBins ∧ 1 ≤ s.maxBins
-  | .update _ N => N.length = s.bins ∧ (s.recording = true → 0 < s.min)
+  | .update _ N => N.length = s.bins
   | .backup => True
   | .revert => True
   | .setPsd N => N.length = s.bins ∧ ∀ x ∈ N, 0 ≤ x
   | .load _ => True
   | .setAdaptive _ => True
   | .enableRec => True
-  | .record _ => s.recording = true → 0 < s.min
+  | .record _ => True
   | .setRecorded _ => True
   | .saveRec => True
   | .loadRec => True
@@ -1451,7 +1661,7 @@ theorem inv_step (s s' : State α) (op : Op α) (h : Inv s) (hp : Pre s op) (hs 
     simp only [step, Option.map_eq_some_iff] at hs
     obtain ⟨⟨s1, chg, ni⟩, hadj, rfl⟩ := hs
     exact adjust_inv s s1 c chg ni h hp.1 hp.2 hadj
-  | update t N => exact update_inv s s' t N h hp.1 hp.2 hs
+  | update t N => exact update_inv_any s s' t N h hp hs
   | backup => have := Option.some.inj hs; subst this; exact backup_inv s h
   | revert => exact revert_inv s s' h hs
   | setPsd N => have := Option.some.inj hs; subst this; exact setPsd_inv s N h hp.1 hp.2
@@ -1461,7 +1671,7 @@ theorem inv_step (s s' : State α) (op : Op α) (h : Inv s) (hp : Pre s op) (hs 
     obtain ⟨hg, hsz, ho1, ho2, ho3, hbk, hr, hsv⟩ := h
     exact ⟨hg, hsz, ho1, ho2, ho3, hbk, hr, hsv⟩
   | enableRec => have := Option.some.inj hs; subst this; exact enableRec_inv s h
-  | record t => exact record_inv s s' t h hp hs
+  | record t => exact record_inv s s' t h hs
   | setRecorded t => exact setRecorded_inv s s' t h hs
   | saveRec => have := Option.some.inj hs; subst this; exact saveRec_inv s h
   | loadRec => exact loadRec_inv s s' h hs
@@ -1721,8 +1931,7 @@ example : Inv (init (1 : ℚ) 10 9 4 8) := inv_init 1 10 9 4 8 (by norm_num) (by
 example : (change witness9 1 10 (some 6) false).map (fun s => thirdMoment s) = some (thirdMoment witness9) ∧
     remeshNewV witness9 1 10 (some 6) ≠ 0 := by decide +kernel
 example : Valid (init (1 : ℚ) 10 3 2 8) [.update 0 [7, 1/2, 3], .backup, .add 2, .revert] :=
-  ⟨(by decide +kernel : [7, 1/2, (3 : ℚ)].length = (init (1 : ℚ) 10 3 2 8).bins ∧
-      ((init (1 : ℚ) 10 3 2 8).recording = true → 0 < (init (1 : ℚ) 10 3 2 8).min)),
+  ⟨(by decide +kernel : [7, 1/2, (3 : ℚ)].length = (init (1 : ℚ) 10 3 2 8).bins),
    fun _ _ => ⟨trivial, fun _ _ => ⟨trivial, fun _ _ => ⟨trivial, fun _ _ => trivial⟩⟩⟩⟩
 example : (run (init (1 : ℚ) 10 3 2 8) [.update 0 [7, 1/2, 3], .backup, .add 2, .revert]).map (fun s => (s.psd, s.bins))
     = some ([7, 0, 3], 3) := by decide +kernel
@@ -1734,8 +1943,7 @@ example : (adjust { witness9 with psd := [0, 0, 0, 0, 5, 0, 0, 0, 2] } false).ma
 example : Valid (init (1 : ℚ) 10 3 2 8) [.enableRec, .record 1, .setRecorded 2] :=
   ⟨trivial, fun s1 h1 => by
     have := Option.some.inj h1; subst this
-    exact ⟨(by decide +kernel : (enableRec (init (1 : ℚ) 10 3 2 8)).recording = true → 0 < (enableRec (init (1 : ℚ) 10 3 2 8)).min),
-      fun _ _ => ⟨trivial, fun _ _ => trivial⟩⟩⟩
+    exact ⟨trivial, fun _ _ => ⟨trivial, fun _ _ => trivial⟩⟩⟩
 example : (run (init (1 : ℚ) 10 3 2 8)
       [.enableRec, .update 1 [7, 1/2, 3], .add 2, .update 2 [0, 4, 0, 9, 2], .setRecorded (3/2), .saveRec, .reset true,
        .loadRec, .setRecorded 5]).map (fun s => (s.bins, s.psd, s.recBins.length))
@@ -1744,5 +1952,100 @@ example : (run (init (1 : ℚ) 10 3 2 8)
       [.enableRec, .update 1 [7, 1/2, 3], .add 2, .update 2 [0, 4, 0, 9, 2], .setRecorded (3/2)]).map
         (fun s => (s.bins, decide (∀ x ∈ s.psd, 0 ≤ x), s.size == midpoints s.bounds))
     = some (5, true, true) := by decide +kernel
+
+/-! ### the record length BEFORE repair a549be2 (number of non-zero boundaries) loses the last class -/
+
+/-- for EVERY consistent grid that starts at exactly 0, the pre-repair `_grabPSDfromIndex` (`grabOld`)
+reads its record back one class short: the last class, populated or not, is gone and the boundaries
+stop one early (so the stated maximum is no longer the recorded one) -/
+theorem grabOld_zero_start_loses_class (s : State α) (mx : α) (n : Nat) (b p : List α) (w1 w2 : Nat)
+    (hg : GridOK 0 mx n b p) :
+    (grabOld s (padRow w1 b) (padRow w2 p)).bins = n - 1 ∧
+    (grabOld s (padRow w1 b) (padRow w2 p)).bounds = b.take n ∧
+    (grabOld s (padRow w1 b) (padRow w2 p)).psd = p.take (n - 1) := by
+  have hb := hg.bounds_eq
+  have hn := hg.bins_pos
+  have hbl : b.length = n + 1 := by rw [hb, linspace_length]
+  have hpw : b.Pairwise (· < ·) := by rw [hb]; exact linspace_pairwise _ _ _ hg.bins_pos hg.lt
+  have hh : b.head? = some 0 := by rw [hb, linspace_head?]
+  rcases hbb : b with _ | ⟨x, xs⟩
+  · rw [hbb] at hh; simp at hh
+  · rw [hbb] at hh hpw hbl
+    simp only [List.head?_cons, Option.some.injEq] at hh; subst hh
+    have hpos : ∀ y ∈ xs, 0 < y := (List.pairwise_cons.mp hpw).1
+    have hxl : xs.length = n := by simpa using hbl
+    have hcnt : nonzeroCount (padRow w1 (0 :: xs)) = n := by
+      unfold padRow; rw [nonzeroCount_zero_start xs _ hpos, hxl]
+    have hn0 : ¬ n = 0 := by omega
+    simp only [grabOld, grabWith, hcnt, if_neg hn0]
+    have hpl := hg.psd_len
+    refine ⟨?_, ?_, ?_⟩
+    · simp only [padRow, List.length_take, List.length_append, zeros_length]; omega
+    · unfold padRow; rw [List.take_append_of_le_length (by simp; omega)]
+    · unfold padRow; rw [List.take_append_of_le_length (by omega)]
+
+/-- **witness** (ℚ, kernel-evaluated): the grid [0, 1, 2] with populations [5, 7], stored in record rows
+of width 5 / 4.  The pre-repair count `len(np.nonzero(row)[0])` = 2 gives back ONE class [0, 1] with
+population 5 — the class [1, 2] holding 7 particles is lost and the stated maximum is 1, not 2;
+the repaired count (position of the last non-zero boundary + 1 = 3) gives back both classes. -/
+theorem grabOld_loses_last_class :
+    (fun g : Grab ℚ => (g.bounds, g.psd, g.size, g.bins, g.mn, g.mx))
+        (grabOld (init (0 : ℚ) 2 2 1 4) [0, 1, 2, 0, 0] [5, 7, 0, 0]) = ([0, 1], [5], [1/2], 1, 0, 1) ∧
+    (fun g : Grab ℚ => (g.bounds, g.psd, g.size, g.bins, g.mn, g.mx))
+        (grab (init (0 : ℚ) 2 2 1 4) [0, 1, 2, 0, 0] [5, 7, 0, 0]) = ([0, 1, 2], [5, 7], [1/2, 3/2], 2, 0, 2) ∧
+    nonzeroCount ([0, 1, 2, 0, 0] : List ℚ) = 2 ∧ recordedCount ([0, 1, 2, 0, 0] : List ℚ) = 3 := by
+  decide +kernel
+
+/-- **witness**: a ONE-class record of a grid starting at 0 ([0, 3], population 5).  Pre-repair it is read
+back as a grid without any class (one boundary, no population: the invariant is broken), and blending
+it with a neighbouring record raises (`np.interp` on an empty sample array: `between` = none);
+repaired, the class comes back and the blend with the all-zero first record is defined. -/
+theorem grabOld_one_class_breaks :
+    (fun g : Grab ℚ => (g.bounds, g.psd, g.bins)) (grabOld (init (0 : ℚ) 3 1 1 2) [0, 3, 0] [5, 0]) = ([0], [], 0) ∧
+    between (init (0 : ℚ) 3 1 1 2) (grabOld (init (0 : ℚ) 3 1 1 2) [0, 3, 0] [5, 0])
+        (grabOld (init (0 : ℚ) 3 1 1 2) [0, 0, 0] [0, 0]) (1/2) 0 1 = none ∧
+    (fun g : Grab ℚ => (g.bounds, g.psd, g.bins)) (grab (init (0 : ℚ) 3 1 1 2) [0, 3, 0] [5, 0]) = ([0, 3], [5], 1) ∧
+    (between (init (0 : ℚ) 3 1 1 2) (grab (init (0 : ℚ) 3 1 1 2) [0, 3, 0] [5, 0])
+        (grab (init (0 : ℚ) 3 1 1 2) [0, 0, 0] [0, 0]) (1/2) 0 1).map (fun s => (s.bounds, s.psd, s.bins))
+      = some ([0, 3], [5/2], 1) := by
+  decide +kernel
+
+/-- the same through whole operation sequences on the (repaired) model: a grid from 0, record, restore
+at the recorded time / after save-reset-load / between the first (all-zero) record and this one -/
+theorem restore_from_zero_grid :
+    (run (init (0 : ℚ) 2 2 1 4) [.enableRec, .update 1 [5, 7], .add 1, .setRecorded 1]).map
+        (fun s => (s.bins, s.psd, s.bounds, s.size, s.min, s.max)) = some (2, [5, 7], [0, 1, 2], [1/2, 3/2], 0, 2) ∧
+    (run (init (0 : ℚ) 2 2 1 4) [.enableRec, .update 1 [5, 7], .saveRec, .reset true, .change 1 5 (some 3) false,
+        .loadRec, .setRecorded 7]).map
+        (fun s => (s.bins, s.psd, s.bounds, s.min, s.max)) = some (2, [5, 7], [0, 1, 2], 0, 2) ∧
+    (run (init (0 : ℚ) 2 2 1 4) [.enableRec, .update 1 [5, 7], .setRecorded (1/2)]).map
+        (fun s => (s.bins, s.psd, s.bounds, s.min, s.max)) = some (2, [5/2, 7/2], [0, 1, 2], 0, 2) ∧
+    (run (init (1 : ℚ) 5 2 1 4) [.change 0 3 (some 1) false, .enableRec, .update 1 [9], .add 2, .setRecorded 1]).map
+        (fun s => (s.bins, s.psd, s.bounds, s.min, s.max)) = some (1, [9], [0, 3], 0, 3) := by
+  refine ⟨?_, ?_, ?_, ?_⟩ <;> decide +kernel
+
+/-! non-vacuity of the new hypothesis sets -/
+
+/-- `grab_restores_record`: strictly increasing boundaries starting at exactly 0 -/
+example : (2 ≤ ([0, 1, 2] : List ℚ).length) ∧ ([5, 7] : List ℚ).length + 1 = ([0, 1, 2] : List ℚ).length ∧
+    ([0, 1, 2] : List ℚ).Pairwise (· < ·) ∧ (∀ x, ([0, 1, 2] : List ℚ).head? = some x → 0 ≤ x) := by
+  refine ⟨by decide, by decide, by decide +kernel, ?_⟩
+  intro x hx; simp at hx; rw [← hx]
+
+/-- `grabOld_zero_start_loses_class`, `grab_restores_grid`: a consistent grid with lower end 0 -/
+example : GridOK (0 : ℚ) 2 2 [0, 1, 2] [5, 7] :=
+  ⟨by decide, le_refl _, by norm_num, by decide +kernel, rfl, by decide +kernel⟩
+
+/-- `record_then_restore` / the invariant on a grid from 0 while recording: every operation of this
+sequence meets its (now unconditional) precondition, and the state the restore starts from is
+recording, consistent, with first recorded time 0 < 1 -/
+example : Valid (init (0 : ℚ) 2 2 1 4) [.enableRec, .update 1 [5, 7], .setRecorded 1] :=
+  ⟨trivial, fun s1 h1 => by
+    have := Option.some.inj h1; subst this
+    exact ⟨(by decide +kernel : [5, (7 : ℚ)].length = (enableRec (init (0 : ℚ) 2 2 1 4)).bins),
+      fun _ _ => ⟨trivial, fun _ _ => trivial⟩⟩⟩
+example : Inv (enableRec (init (0 : ℚ) 2 2 1 4)) ∧ (enableRec (init (0 : ℚ) 2 2 1 4)).recording = true ∧
+    (enableRec (init (0 : ℚ) 2 2 1 4)).recTime.head? = some 0 ∧ (enableRec (init (0 : ℚ) 2 2 1 4)).min = 0 :=
+  ⟨enableRec_inv _ (inv_init 0 2 2 1 4 (by norm_num) (le_refl _) (by decide +kernel)), rfl, rfl, rfl⟩
 
 end KawinV.Props.C08
